@@ -21,12 +21,12 @@ class StreamGen:
     def __init__(self, uni):
         self.c = {n: ids[0] for n, ids in uni.by_name.items()}
 
-    def gen(self, rng, n_ops=12, n_threads=3, rich=False):
+    def gen(self, rng, n_ops=12, n_threads=3, rich=False, empty_map_ok=False):
         c = self.c
         tids = rng.sample([11, 12, 13, 14, 0x200, 0x201, 0], n_threads)          # 0: records emitted outside a thread context
         pids = [rng.choice([0, 1, 7, 44, 300]) for _ in tids]
         names = ['launchd', 'xpcproxy', 'Safari', 'kernel_task', 'a', '']
-        declared = rng.sample(range(n_threads), rng.randint(1, n_threads))
+        declared = rng.sample(range(n_threads), rng.randint(0 if empty_map_ok and rng.random() < 0.4 else 1, n_threads))
         threads = [(tids[i], pids[i], rng.choice(names).encode()) for i in declared]
         evs = []
         for _ in range(n_ops):
